@@ -288,9 +288,80 @@ def run_case(acc, source, spec, path):
         history_reparent(acc, source, spec, model, payload)
 
 
+def direct_deep(acc, edges, side_every, only_ancestors=False):
+    """Trees too deep for the harness's recursive spec walkers: built iteratively through the public constructors,
+    reference values known by construction.  A spine of `edges` edges; at every `side_every`-th level an optional
+    leaf is listed BEFORE the child that continues the spine (deep and branching at once).  The library is called
+    under the interpreter's default recursion limit first; a RecursionError there is a refusal and the call is
+    repeated under the harness's limit."""
+    from flamapy.metamodels.fm_metamodel.models import Feature, Relation, FeatureModel
+    from flamapy.metamodels.fm_metamodel.operations import (FMCountLeafs, FMLeafFeatures, FMMaxDepthTree,
+                                                            FMAverageBranchingFactor, FMFeatureAncestors)
+    from .. import env
+    root = cur = Feature("Sp0", [])
+    spine = [root]
+    n_side = 0
+    nchildren = 0
+    for j in range(1, edges + 1):
+        if side_every and j % side_every == 0:
+            side = Feature(f"Side{j}", [])
+            cur.add_relation(Relation(cur, [side], 0, 1))
+            n_side += 1
+            nchildren += 1
+        nxt = Feature(f"Sp{j}", [])
+        cur.add_relation(Relation(cur, [nxt], j % 2, 1))
+        nchildren += 1
+        spine.append(nxt)
+        cur = nxt
+    model = FeatureModel(root, [])
+    cls = f"direct:spine-{edges}-side-every-{side_every}"
+    payload = {"source": cls, "spec": f"<spine of {edges} edges, optional leaf first at every {side_every}th level>"}
+
+    def call(fn):
+        try:
+            with env.library_recursion_limit(True):
+                return fn()
+        except RecursionError:
+            acc.count("refused-under-default-recursion-limit")
+            return fn()
+
+    def chk(where, fn, want, show=repr):
+        try:
+            got = call(fn)
+        except RecursionError:
+            acc.count("too-deep-even-for-the-harness-limit:" + where)
+            return
+        except Exception as e:  # noqa: BLE001
+            acc.fail(cls, "no-exception", where, [], f"raises:{type(e).__name__}", str(e)[:200], payload)
+            return
+        if got != want:
+            acc.fail(cls, "matches-definition", where, [], "wrong-value", f"{show(got)[:120]} != {show(want)[:120]}", payload)
+        else:
+            acc.held(cls + "|" + where, None)
+
+    def anc(f):
+        op = FMFeatureAncestors()
+        op.set_feature(f)
+        return [x.name for x in op.execute(model).get_result()]
+    for depth in sorted({edges, edges - 1, edges // 2, 2, 1}):
+        if 0 < depth <= edges:
+            chk("FMFeatureAncestors", lambda d=depth: anc(spine[d]), [f"Sp{q}" for q in range(depth - 1, -1, -1)], lambda v: f"{len(v)} ancestors {v[:3]}..")
+    if only_ancestors:
+        return
+    chk("FMMaxDepthTree", lambda: FMMaxDepthTree().execute(model).get_result(), edges)
+    chk("FMCountLeafs", lambda: FMCountLeafs().execute(model).get_result(), n_side + 1)
+    chk("FMLeafFeatures", lambda: sorted(f.name for f in FMLeafFeatures().execute(model).get_result()),
+        sorted([f"Side{j}" for j in range(1, edges + 1) if side_every and j % side_every == 0] + [f"Sp{edges}"]), lambda v: f"{len(v)} leaves")
+    chk("FMAverageBranchingFactor", lambda: FMAverageBranchingFactor().execute(model).get_result(), round(nchildren / edges, 2))
+
+
 def run_shard(desc, acc):
     for source, spec, path in cases(desc):
         run_case(acc, source, spec, path)
+    deep = [(700, 1), (2500, 7), (520, 3), (66000, 0)]
+    for k, (edges, side) in enumerate(deep):
+        if (k + 2) % desc["nshards"] == desc["shard"]:
+            direct_deep(acc, edges, side, only_ancestors=edges > 10000)
 
 
 def replay(payload, acc):
